@@ -10,11 +10,11 @@ CHECK = {
          'an honest node rejects as contradicting never enter the tree. Non-trivial = >=2 branches of length >=2 after a fork, >=1 Byzantine block '
          'accepted, and finality advanced beyond the first fork. Distinct by digest of the execution log',
  'level_text': 'For every pair of tree nodes the blocks their chain views report as finalized (ancestors at or below maxHeightPrecommitted) must lie on '
-               'one chain; along every path precommitted <= prevoted <= height and both heights are monotone. A self-test with Byzantine weight '
+               'one chain; along every path precommitted <= prevoted <= height and both heights are monotone; after every block of every branch the prevoted and precommitted heights the view reports equal those of the independent LIP-0058 counting model run along the same path (finality is backed by a quorum of distinct validators; the model state is cloned per tree node). A self-test with Byzantine weight '
                'beyond one third reports how often the same strategies produce a conflict (explorer power).',
  'level_note': 'Search, not proof: an attack needing a long precise schedule may be missed; C02 catches counting deviations that cannot by themselves '
                'break safety inside the bound.',
- 'technique': 'property-based adversarial exploration (rapid) of fork trees with a global safety invariant over the real BFT module',
+ 'technique': 'property-based adversarial exploration (rapid) of fork trees with a global safety invariant over the real BFT module and a per-path differential against a LIP-0058 reference model',
  'assumptions': ['fault bound f < W/3 and f <= precommitThreshold - floor(W/3) - 1 (Lisk-BFT safety theorem)', 'honest validators modelled per LIP-0014/LIP-0058'],
  'quick': [{'pkg': 'c01', 'checks': 1500, 'timeout': 900}],
  'thorough': [{'pkg': 'c01', 'checks': 40000, 'shards': 16, 'timeout': 2400}],
